@@ -24,6 +24,13 @@ def _grad(output: Tensor, input: Tensor, create_graph: bool) -> Tensor:
     return torch.zeros_like(input) if grad is None else grad
 
 
+def _expand(input: Tensor, params: dict) -> Tensor:
+    # Give the differentiated tensor the broadcast shape of all tensor parameters;
+    # otherwise autograd sums the derivative over the broadcast dimensions.
+    shapes = [p.size() for p in params.values() if isinstance(p, Tensor)]
+    return input.expand(torch.broadcast_shapes(input.size(), *shapes))
+
+
 def delta(
     pricer: Callable[..., Tensor], *, create_graph: bool = False, **params: Any
 ) -> Tensor:
@@ -98,7 +105,7 @@ def delta(
         >>> autogreek.delta(pricer, spot=torch.tensor(1.0))
         tensor(0.5...)
     """
-    spot = parse_spot(**params).requires_grad_()
+    spot = _expand(parse_spot(**params), params).requires_grad_()
     params["spot"] = spot
     if "strike" in params:
         params["moneyness"] = spot / params["strike"]
@@ -165,7 +172,7 @@ def gamma(
         ... )
         tensor([2.2074, 1.9848, 1.8024])
     """
-    spot = parse_spot(**params).requires_grad_()
+    spot = _expand(parse_spot(**params), params).requires_grad_()
     params["spot"] = spot
     if "strike" in params:
         params["moneyness"] = spot / params["strike"]
@@ -241,7 +248,7 @@ def vega(
         ... )
         tensor([0.3973, 0.3970, 0.3965])
     """
-    volatility = parse_volatility(**params).requires_grad_()
+    volatility = _expand(parse_volatility(**params), params).requires_grad_()
     params["volatility"] = volatility
     params["variance"] = volatility.square()
 
@@ -293,7 +300,8 @@ def theta(
         ... )
         tensor([-0.1261, -0.0891, -0.0727])
     """
-    time_to_maturity = parse_time_to_maturity(**params).requires_grad_()
+    time_to_maturity = _expand(parse_time_to_maturity(**params), params)
+    time_to_maturity = time_to_maturity.requires_grad_()
     params["time_to_maturity"] = time_to_maturity
 
     # Delete parameters that are not in the signature of pricer to avoid
